@@ -62,35 +62,31 @@ def discipline_obligations(rep):
     if fe is None:
         probs.append('generate_foreach not found')
     else:
-        # the local that holds the loop variable's name: assigned from self._get_loop_var()
-        lvs = [t.id for a_ in core.walk_own(fe) if isinstance(a_, ast.Assign) and ast.unparse(a_.value) == 'self._get_loop_var()'
-               for t in a_.targets if isinstance(t, ast.Name)]
+        # the for header: the expression that formats "for <loop variable> in <iterable>:"; the loop variable's name is whatever is
+        # formatted first into it, and that local may be read nowhere else (the emitted loop body never mentions its loop variable)
         parents = {}
         for n in ast.walk(fe):
             for c in ast.iter_child_nodes(n):
                 parents[id(c)] = n
-        uses = [n for n in core.walk_own(fe) if isinstance(n, ast.Name) and n.id in lvs and isinstance(n.ctx, ast.Load)]
-        for u in uses:
-            # must be formatted into the text of the for header ("for %s in %s:" % (..) / f"for {..} in ..:" / "for " + ..)
-            p_, ok = parents.get(id(u)), False
-            while p_ is not None and not isinstance(p_, ast.stmt):
-                if isinstance(p_, ast.BinOp) and isinstance(p_.op, ast.Mod) and isinstance(p_.left, ast.Constant) \
-                        and str(p_.left.value).startswith('for '):
-                    ok = True
-                if isinstance(p_, ast.JoinedStr) and p_.values and isinstance(p_.values[0], ast.Constant) \
-                        and str(p_.values[0].value).startswith('for '):
-                    ok = True
-                if isinstance(p_, ast.BinOp) and isinstance(p_.op, ast.Add):
-                    lm = p_
-                    while isinstance(lm, ast.BinOp):
-                        lm = lm.left
-                    if isinstance(lm, ast.Constant) and str(lm.value).startswith('for '):
-                        ok = True
-                p_ = parents.get(id(p_))
-            if not ok:
-                probs.append('loop variable used outside the for header (line %d)' % u.lineno)
-        if len(lvs) != 1 or len(uses) != 1:
-            probs.append('the loop variable name is read %d times (expected once, in the for header)' % len(uses))
+
+        def header_of(x):
+            if isinstance(x, ast.BinOp) and isinstance(x.op, ast.Mod) and isinstance(x.left, ast.Constant) and str(x.left.value).startswith('for '):
+                vals = x.right.elts if isinstance(x.right, ast.Tuple) else [x.right]
+                return vals[0] if vals else None
+            if isinstance(x, ast.JoinedStr) and x.values and isinstance(x.values[0], ast.Constant) and str(x.values[0].value).startswith('for '):
+                fv = [v for v in x.values if isinstance(v, ast.FormattedValue)]
+                return fv[0].value if fv else None
+            return None
+        headers = [(x, header_of(x)) for x in core.walk_own(fe) if header_of(x) is not None]
+        if len(headers) != 1 or not isinstance(headers[0][1], ast.Name):
+            probs.append('the for header is not formatted from one local holding the loop variable name')
+        else:
+            hx, lv = headers[0]
+            inside = {id(n) for n in ast.walk(hx)}
+            uses = [n for n in core.walk_own(fe) if isinstance(n, ast.Name) and n.id == lv.id and isinstance(n.ctx, ast.Load)]
+            for u in uses:
+                if id(u) not in inside:
+                    probs.append('loop variable used outside the for header (line %d)' % u.lineno)
     rep.add_checked('yp_generator.YPPythonCodeGenerator.generate_foreach.template.T3.loop_variable_only_in_header', not probs,
                     '; '.join(probs), 'ast', function='yp_generator.YPPythonCodeGenerator.generate_foreach', witness=probs or None)
     # T4: YPCodeCall function names are literals
